@@ -236,7 +236,12 @@ func c26Draw(rt *rapid.T, d c26Domain) *c26Case {
 				st[common.BigToHash(big.NewInt(int64(s)))] = common.BigToHash(new(big.Int).SetUint64(v))
 			}
 		}
-		c.put(common.Address(ct.Addr), 1, bal, ct.Code, st)
+		// EIP-2681: a creator whose nonce is 2^64-1 cannot CREATE any more
+		cn := c26Pick(rt, "contract-nonce", uint64(1), 1, 1, 1, 1, 1, 1, 1, 1, 1, 1, 1, 1, 1, 1, 1, 1, 5, 5, 1<<64-1)
+		if cn == 1<<64-1 {
+			c.class("pre:contract-nonce-max")
+		}
+		c.put(common.Address(ct.Addr), cn, bal, ct.Code, st)
 		_ = i
 	}
 	c.put(common.Address(ep.EOAAddr), 0, big.NewInt(1_000_000), nil, nil)
@@ -246,6 +251,10 @@ func c26Draw(rt *rapid.T, d c26Domain) *c26Case {
 	nonces := make([]uint64, c26NumKeys)
 	for i := 0; i < c26NumKeys; i++ {
 		nonces[i] = c26Pick(rt, "sender-nonce", uint64(0), 0, 1, 7)
+		if i == 3 && d.defects && ep.Uniform(rt, "sender-nonce-max", 8) == 0 {
+			nonces[i] = 1<<64 - 1 // EIP-2681: such a sender can never transact again
+			c.class("pre:sender-nonce-max")
+		}
 		var code []byte
 		if i == 4 && delegated {
 			tgt := c26Pick(rt, "delegation-target", common.Address(w.Contracts[0].Addr), common.Address(w.Contracts[len(w.Contracts)-1].Addr),
@@ -433,15 +442,22 @@ func (c *c26Case) drawTx(rt *rapid.T, d c26Domain, idx int, nonces []uint64, blo
 	// calldata / initcode
 	var data []byte
 	if to == nil {
-		switch ep.Uniform(rt, "initcode-kind", 4) {
-		case 0, 1:
+		switch ep.Uniform(rt, "initcode-kind", 13) {
+		case 12: // EIP-3860 boundary: 49152 bytes are allowed, 49153 make the transaction invalid
+			n := 49152
+			if d.defects {
+				n = c26Pick(rt, "initcode-size", 49152, 49153)
+			}
+			data = make([]byte, n)
+			c.class(fmt.Sprintf("tx:initcode-%d", n))
+		case 0, 1, 2, 3, 4, 5:
 			prog := ep.DrawProgram(rt, &ep.GenConfig{Fork: c26EpFork(fork), Self: -1, Contracts: c26ContractAddrs(w), Others: w.Others, MaxBlocks: 5, CreateDepth: 1})
 			rtc, err := prog.Assemble()
 			if err != nil {
 				rt.Fatalf("VERIF-HARNESS-BUG: evmprog: %v", err)
 			}
 			data = ep.Deployer(rtc, true)
-		case 2:
+		case 6, 7, 8:
 			prog := ep.DrawProgram(rt, &ep.GenConfig{Fork: c26EpFork(fork), Self: -1, Contracts: c26ContractAddrs(w), Others: w.Others, MaxBlocks: 5, CreateDepth: 1, AsInit: true})
 			code, err := prog.Assemble()
 			if err != nil {
@@ -719,7 +735,7 @@ func (c *c26Case) drawTx(rt *rapid.T, d c26Domain, idx int, nonces []uint64, blo
 	// was injected on purpose (a wrong guess only produces one more rejected tx)
 	likelyOK := !nonceDefect && feeDefect == "" && gasNote != "below-need" && gasNote != "high" && value.Cmp(c26Ether) <= 0 &&
 		!(typ == refevm.TxSetCode && (len(auths) == 0 || fork < refevm.Prague))
-	if likelyOK {
+	if likelyOK && nonces[si] != 1<<64-1 {
 		nonces[si]++
 		for k, b := range authBumps {
 			nonces[k] += b
